@@ -196,7 +196,16 @@ def r2(cx):
     # result of validate_record_type and from_u8 are propagated
     from ..core import result_fate
     for c in val + sites(cx, b, "wal::RecordType::from_u8"):
-        cx.check(result_fate(b, c) == "propagated", "`%s` errors are propagated" % c.primary.split("::")[-1], "dropped|%s" % c.primary, c.where())
+        fate = result_fate(b, c)
+        okf = fate == "propagated"
+        if not okf and fate == "handled":
+            # `match r { Ok(x) => x, Err(e) => return Err(e) }`: the error arm leaves through an error exit and nothing else
+            re_ = result_edges(b, c)
+            if re_:
+                r_ = feasible_reach(b, re_[1])
+                ex_ = [(x, k) for x, k in exits(b) if x in r_]
+                okf = bool(ex_) and all(k == "err" for x, k in ex_) and not any(y.bb in r_ and b.in_cycle(y.bb) for y in b.calls if y.primary.split("::")[-1] == "parse_header")
+        cx.check(okf, "`%s` errors are propagated" % c.primary.split("::")[-1], "dropped|%s" % c.primary, c.where())
 
 
 @rule("C12", "C12.R3", "repair keeps a prefix: same append, stop at first corruption, close -> rename -> fsync dir")
